@@ -103,7 +103,10 @@ func RotationTo(from, to vector3.Float64) Quaternion {
 			cross = vector3.Up[float64]().Cross(from)
 		}
 
-		return FromTheta(math.Pi, cross.Normalized())
+		// Half a turn about an axis perpendicular to from takes from to -from;
+		// what is left is the small, well conditioned rotation from -from to to.
+		half := FromTheta(math.Pi, cross.Normalized())
+		return RotationTo(from.Scale(-1), to).Multiply(half)
 	}
 
 	cross := from.Cross(to)
